@@ -53,6 +53,19 @@ CHECKS = {
              "workload (ten input classes, 2..64 components, factors over 12 decades) and during a real SSI run; invariance under complex scaling, "
              "exact values on complex multiples of real vectors, MSF(v,cv)=c. Two genuine defects pinned by unit tests are reported as KNOWN-FINDING.",
         ref="3/C18"),
+    "C10": dict(
+        technique="runtime monitoring: postcondition on every gen.SC_apply call (function level and inside six run() methods) against an independent cell-by-cell model",
+        text="Exploration: every label of every generated or real pole table is recomputed by an independent model (nearest finite pole of the previous "
+             "column, three strict relative tests, own MAC) and compared; the same postcondition wraps SC_apply while SSIcov, SSIdat, pLSCF and the "
+             "multi-setup variants run on noisy data, and result.Lab is checked to be the label table of the final filtered tables; purity checked.",
+        ref="3/C10"),
+    "C11": dict(
+        technique="runtime monitoring: postcondition on SSI_mpe / pLSCF_mpe with uniquely tagged pole tables (whole-cell, nearest, in-band, minimal order)",
+        text="Exploration: pole tables whose cells carry unique tags in xi, phi and covariances make every returned mode identify the cell(s) it was "
+             "assembled from; oracle: one whole retained pole of the requested order, the nearest one, returned iff within rtol of its own request; "
+             "find_min = lowest column with exactly one stable pole per band; the same value-based oracle on mpe() after real SSIcov/pLSCF runs. "
+             "pLSCF find_min's legacy label 7 is reported as KNOWN-FINDING.",
+        ref="3/C11"),
 }
 
 PENDING_REASON = "check not built yet in this session (work in progress; the design in DESIGN.md section 3 applies)"
